@@ -12,7 +12,7 @@ LEVEL = "exploration"
 RULE = ("Hypothesis generates a location (1-4 nested directory names and a final name from a "
         "weighted byte alphabet: specials, control bytes, %-sequences, multi-byte UTF-8, optionally "
         "invalid UTF-8), an entry kind, a trash-dir kind (home / $topdir/.Trash/$uid / "
-        "$topdir/.Trash-$uid) and a clock value; real trash-put runs, then the BYTES of the new "
+        "$topdir/.Trash-$uid / --trash-dir through a symlink into the file's volume), a mount-point name, a time zone and a clock value; real trash-put runs, then the BYTES of the new "
         ".trashinfo are judged by an RFC 2396 conformance predicate and by an own byte-level "
         "percent-decoder (must equal the original location: absolute in the home trash, relative "
         "to $topdir without '..' otherwise); date == virtual clock; then trash-list, "
@@ -37,7 +37,8 @@ def strategy_(draw, tier):
         # still far below PATH_MAX: 5-8 directories named with 60-100 multi-byte characters
         ch = draw(st.sampled_from(["\u6587", "\u00e9", " ", "%"]))
         comps = [ch * draw(st.integers(60, 80)) + str(i) for i in range(draw(st.integers(5, 8)))] + comps[-1:]
-    tkind = draw(st.sampled_from(["home", "home", "top_sticky", "top_alt"]))
+    tkind = draw(st.sampled_from(["home", "home", "home", "top_sticky", "top_sticky", "top_alt", "top_alt",
+                                  "trash_dir_link"]))
     kind = draw(st.sampled_from(["file", "empty", "dir", "link_dangling"]))
     secs = draw(st.one_of(st.integers(0, 4 * 10 ** 9), st.sampled_from(
         [0, 59, 86399, 951782400, 68169599, 252455615999 - 946684800])))
@@ -81,6 +82,12 @@ def run_case(case):
     nodes = [{"p": d, "t": "d"}]
     if case["tkind"] == "top_sticky":
         nodes += gen.topdir_nodes(V, uid, "sticky", "absent")
+    TD = home + "/usb-trash"
+    if case["tkind"] == "trash_dir_link":
+        # --trash-dir named through a symlink on the home volume that leads to a directory of the
+        # file's volume: whatever form the Path takes, the readers given the same --trash-dir must
+        # decode it to the original location
+        nodes += [{"p": V + "/My Trash", "t": "d"}, {"p": TD, "t": "l", "to": V + "/My Trash"}]
     if case["kind"] in ("file", "empty"):
         nodes.append({"p": e, "t": "f", "c": "x" if case["kind"] == "file" else ""})
     elif case["kind"] == "dir":
@@ -102,10 +109,11 @@ def run_case(case):
     if case["kind"] not in ("dir",) and case["spell"] == "slash":
         arg = e
     before = sandbox.snapshot()
-    res = runner.run(spec, "trash-put", ["--", arg])
+    tdopt = ["--trash-dir", TD] if case["tkind"] == "trash_dir_link" else []
+    res = runner.run(spec, "trash-put", tdopt + ["--", arg])
     after = sandbox.snapshot()
     tdir = {"home": home + "/.local/share/Trash", "top_sticky": V + "/.Trash/%d" % uid,
-            "top_alt": V + "/.Trash-%d" % uid}[case["tkind"]]
+            "top_alt": V + "/.Trash-%d" % uid, "trash_dir_link": V + "/My Trash"}[case["tkind"]]
     new_infos = [p for p in after if p.startswith(tdir + "/info/") and p not in before]
     out.classes += ["tkind:" + case["tkind"], "kind:" + case["kind"], "exit:%d" % res.code,
                     "names:" + ncls, "spell:" + case["spell"]]
@@ -129,10 +137,12 @@ def run_case(case):
             out.fail("path_not_escaped", "Path value %r contains bytes that must be escaped" % val,
                      **tags)
         dec = oracle.pct_decode(val)
-        if dec != expected:
+        if case["tkind"] == "trash_dir_link":
+            pass    # absolute or relative: judged through the readers below
+        elif dec != expected:
             out.fail("path_roundtrip", "Path decodes to %r, original location is %r" % (
                 dec, expected), **tags)
-        if case["tkind"] != "home" and (val.startswith(b"/") or b".." in dec.split(b"/")):
+        if case["tkind"] not in ("home", "trash_dir_link") and (val.startswith(b"/") or b".." in dec.split(b"/")):
             out.fail("path_not_relative", "Path in a $topdir trash is %r" % val, **tags)
         if case["tkind"] == "home" and not val.startswith(b"/"):
             out.fail("path_not_absolute", "Path in the home trash is %r" % val, **tags)
@@ -144,14 +154,25 @@ def run_case(case):
             out.fail("extra_content", "unexpected trailing content %r" % raw[-40:], **tags)
     # ---- the three readers
     shown = now.replace("T", " ") + " " + e
-    r = runner.run(spec, "trash-list", [], cwd="/")
+    r = runner.run(spec, "trash-list", tdopt, cwd="/")
     if r.out != shown + "\n" or r.code != 0:
         out.fail("list_readback", "trash-list printed %r (exit %d, stderr %r), expected %r" % (
             r.out, r.code, r.err[-200:], shown), **tags)
-    r = runner.run(spec, "trash-restore", ["/"], cwd=V, stdin="")
+    r = runner.run(spec, "trash-restore", tdopt + ["/"], cwd=V, stdin="")
     if not r.out.startswith("   0 " + shown + "\n"):
         out.fail("restore_readback", "trash-restore listed %r (stderr %r), expected %r" % (
             r.out[:200], r.err[-200:], "   0 " + shown), **tags)
+    if tdopt and case["spell"] == "deepcwd":
+        fn_level(out, case, tags)     # (no system call can name a restore destination that deep)
+        return finish(out, case, ncls)
+    if tdopt:       # (trash-rm has no --trash-dir: restore the entry through the same option instead)
+        r = runner.run(spec, "trash-restore", tdopt + ["/"], cwd=V, stdin="0\n")
+        final = sandbox.snapshot()
+        if ip in final or sandbox.subtree(final, e, mtime=False) != sandbox.subtree(before, e, mtime=False):
+            out.fail("restore_roundtrip", "trash-restore --trash-dir did not bring %r back to its "
+                     "original location (exit %d, stderr %r)" % (e, r.code, r.err[-200:]), **tags)
+        fn_level(out, case, tags)
+        return finish(out, case, ncls)
     r = runner.run(spec, "trash-rm", [glob_escape(e)], cwd="/")
     final = sandbox.snapshot()
     if ip in final or any(p.startswith(tdir + "/files/") for p in final):
